@@ -348,6 +348,12 @@ func recordAuthFailure(clientIP string, trackers map[string]*authFailureTracker,
 	defer mu.Unlock()
 
 	tracker := trackers[clientIP]
+	if tracker == nil {
+		// The mutex is released between the caller's lookup and this call, so a
+		// cleanup pass may have removed the client's tracker in the meantime.
+		tracker = &authFailureTracker{}
+		trackers[clientIP] = tracker
+	}
 	tracker.failures++
 	tracker.lastFailure = time.Now()
 
